@@ -34,7 +34,7 @@ CHECKS = {
             "Explicit-state BFS over call histories of the element parameter API on five classes (1- and 2-parameter elements, +-inf box, container) to depth 3-4 (4-6) with valid and invalid calls in keyword and positional form; every transition is compared with a reference state machine; copy, deepcopy and re-parse equality/independence are checked in every state whose values lie within their limits; class defaults and fresh instances are re-observed after every call.",
             "Value menus are 5 points per parameter; multi-key calls are modelled as applied in order up to the first refused key.", "DESIGN.md section 4, C14"),
     "C15": ("model_checking", E2 + " (registry histories from a harness-made hard reset vs reference registry)",
-            "Explicit-state BFS over histories of register_element / remove_elements / reset / set_default_values / reset_default_parameter_values with eight user definitions (valid, duplicate symbol, grossly and subtly inconsistent impedance, shadowing, prefix-sharing, invalid symbols) to depth 4 (7); after every transition get_elements in all flag combinations, every built-in default, 16 parse probes and instance defaults are compared with a reference registry (set_default_values also on a container's own parameter, a sub-circuit key and an unknown key); futures after reset are covered because search continues from the reset state and the canonical state includes the module-internal dicts.",
+            "Explicit-state BFS over histories of register_element / remove_elements / reset / set_default_values / reset_default_parameter_values with ten user definitions (a symbol with an underscore, an already registered class re-registered with a contradicting equation, valid, duplicate symbol, grossly and subtly inconsistent impedance, shadowing, prefix-sharing, invalid symbols) to depth 4 (7); after every transition get_elements in all flag combinations, every built-in default, 16 parse probes and instance defaults are compared with a reference registry (set_default_values also on a container's own parameter, a sub-circuit key and an unknown key); futures after reset are covered because search continues from the reset state and the canonical state includes the module-internal dicts.",
             "Every history is replayed from a hard reset done by the harness, not by the reset() under test; re-registering built-in class objects is outside the alphabet.", "DESIGN.md section 4, C15"),
     "C16": ("exploration", E1 + " (all small circuits x type/label patterns + long chains; symbol<->element differential oracle)",
             "Every canonical skeleton <= 3 (4) leaves and the object-only shapes x every filling from six entries (repeated types, containers with nested sub-circuits, a container in a container) x nine label patterns, plus chains/ladders of 12-22 elements (shared decimal suffixes of running identifiers); identifier bijections against an independent traversal, name uniqueness, validate_circuit, fit identifiers, symbol<->element differential on Circuit.to_sympy(), CircuiTikZ labels, and the parameter table of a short real fit on a subset. Exhaustive per bound.",
@@ -70,7 +70,7 @@ CHECKS = {
             "pyimpspec.cli.main() is run in-process for parse (mock specifiers and generated files x three formats x six filter sets, output to files, --average), circuit --simulate (plotted data sets captured), fit and drt (methods x options x formats x filters) and every subset/order of the six mock-specifier keys; every printed or written number is compared with the API call with the same settings (csv exact, json to its printed decimals, md to the printed digits).",
             "Commands run in-process with the Agg backend; plots are observed through the data sets handed to the plot functions.", "DESIGN.md section 4, C19"),
     "C17": ("model_checking", E3 + "; repetition in fresh processes",
-            "Z-HIT with automatic options (4, 5 and 20 tasks per stage, three spectra incl. one whose candidates tie bit-for-bit), multi-method fits (incl. a constructed exact tie), evaluate_log_F_ext and cnls run under a controlled in-process pool: every feasible completion order for P = 2 (3) workers and for P = n in thorough, deviation-bounded (<= 1-2) otherwise; each execution is compared with the serial result. The TLC model of the pool (N tasks, P workers) supplies the completion orders independently: its terminal traces equal the enumerator's set and every one is replayed on the pool and on perform_zhit. Plus same-process and fresh-process repetition (different hash seeds), a free-running sample with the real pool, and for mock data an explicit-state search: every sequence of 3 operations from {4 data requests, modify the circuit returned by generate_mock_circuits} per definition, each request compared bit for bit with the same request as first call of a fresh process.",
+            "Mock data must differ pairwise over a 13-seed family (small, negated, 2^31, near 2^32). Z-HIT with automatic options (4, 5 and 20 tasks per stage, three spectra incl. one whose candidates tie bit-for-bit), multi-method fits (incl. a constructed exact tie), evaluate_log_F_ext and cnls run under a controlled in-process pool: every feasible completion order for P = 2 (3) workers and for P = n in thorough, deviation-bounded (<= 1-2) otherwise; each execution is compared with the serial result. The TLC model of the pool (N tasks, P workers) supplies the completion orders independently: its terminal traces equal the enumerator's set and every one is replayed on the pool and on perform_zhit. Plus same-process and fresh-process repetition (different hash seeds), a free-running sample with the real pool, and for mock data an explicit-state search: every sequence of 3 operations from {4 data requests, modify the circuit returned by generate_mock_circuits} per definition, each request compared bit for bit with the same request as first call of a fresh process.",
             "Workers share no memory and results travel by pickle, which the controlled pool reproduces; time-outs and OS scheduling are not modelled; BHT/TR-RBF are excluded (unseeded by design).", "DESIGN.md section 4, C17"),
     "C18": ("exploration", E1 + " (option cross products: full product of the step-arithmetic dimensions, pairwise covering of the rest) + explicit-state search of the Progress counter",
             "KK (7 tests x num_RC modes x num_F_ext_evaluations in {-10, 0, 5, 10, 21} as a full product on 4..41 points, crossed with a pairwise covering array / full product over representation, capacitance, inductance, rapid, F_ext limits), Z-HIT (auto options x windows x weights full product; pairwise / full over 6 smoothers x 5 interpolators x {Z,Y} x weights x windows x (num_points, order) on 3/5/12 points), DRT (all methods and modes on 1..12 points), fit (36 method/weight pairs + auto on 1..12 points; every form of the method argument x every form of the weight argument), and each entry point called directly after the same call on another number of points over the same range (same outcome class as a first call): every call must complete or be refused by an explicit raise of a TypeError/ValueError/library error in pyimpspec code; the progress counter's own check and anything propagating from NumPy/SciPy/lmfit/statsmodels is a violation; every notification must carry a fraction in [0, 1] and a string. The Progress class itself is searched as a state machine (two nested contexts, register/unregister) to depth 7 (9).",
